@@ -1,18 +1,18 @@
 #!/bin/bash
-# usage: confirm_seed.sh <PROP> <X> <demo-pkg-dir> [demo-run-regex]
+# usage: [SRCBASE=/tmp/mut2 IDPREFIX=R2] confirm_seed.sh <PROP> <X> <demo-pkg-dir> [demo-run-regex]
 # Confirms a seeded change from /tmp/mut/<PROP>/<X>/ in a scratch worktree of /repo HEAD:
 # patch applies + builds + whole suite passes with it; demo fails with it and passes without.
 # On success stores it as /verif/seeded/<PROP><X>/.
 set -u
 P="$1"; X="$2"; PKG="$3"; RUN="${4:-Demo}"
-SRC=/tmp/mut/$P/$X
+SRC=${SRCBASE:-/tmp/mut}/$P/$X
 WT=/tmp/confirm/$P$X/wt
-OUT=/verif/seeded/$P$X
+OUT=/verif/seeded/${IDPREFIX:-}$P$X
 export GOFLAGS=-mod=mod GOPROXY=off TMPDIR=/tmp/confirm/$P$X/tmp
 rm -rf /tmp/confirm/$P$X; mkdir -p $TMPDIR
 git -C /repo worktree add -q --detach $WT HEAD || exit 2
 cd $WT
-DEMO=$(ls $SRC/zz_demo_*_test.go | head -1)
+DEMO=$(ls $SRC/zz_demo_*_test.go | grep -v stress | head -1)
 res() { echo "$1" | tee -a /tmp/confirm/$P$X/result.txt; }
 git apply $SRC/patch.diff || { res "PATCH-DOES-NOT-APPLY"; cd /; git -C /repo worktree remove --force $WT; exit 1; }
 go build ./... || { res "BUILD-FAILS"; cd /; git -C /repo worktree remove --force $WT; exit 1; }
